@@ -1,7 +1,6 @@
-(* modelrun.ml — line-protocol driver around the OCaml extracted from the Coq models.
+(* helpers.ml — line-protocol driver around the OCaml extracted from the Coq models.
    Same input as the C drivers in ../impl (one case per line, TAB separated, hex byte strings),
    one output line per case. *)
-open Model
 
 let rec pos_of_int (i : int) : positive =
   if i = 1 then XH
@@ -59,32 +58,20 @@ let hex (l : n list) : string =
 
 let split_tab s = String.split_on_char '\t' s
 
-let run (f : string list) : string =
-  match f with
-  | ["getutf8"; h] ->
-      (match getutf8 (unhex h) with
-       | None -> "E"
-       | Some (cp, len) -> Printf.sprintf "%s %d" (dec_of_n cp) (int_of_nat len))
-  | ["pututf8"; v] ->
-      (match pututf8 (n_of_dec v) with None -> "E" | Some bs -> hex bs)
-  | ["checkutf8"; h] ->
-      (match unhex h with
-       | [] -> "E"
-       | s -> (match checkutf8 s with None -> "E" | Some u -> string_of_int (int_of_nat u)))
-  | ["xmlesc"; a; h] -> hex (xml_esc (a = "1") (unhex h))
-  | ["xmlval"; e; h] ->
-      let s = unhex h in
-      (match xml_value (n_of_dec e) s with
-       | Err _ -> "E"
-       | Ok ((v, rest), ws) ->
-           Printf.sprintf "%s %d %d" (hex v) (List.length s - List.length rest) (if ws then 1 else 0))
-  | _ -> "?"
 
-let () =
+(* Z <-> decimal string with sign *)
+let z_of_dec (s : string) : z =
+  if String.length s > 0 && s.[0] = '-' then Z.opp (Z.of_N (n_of_dec (String.sub s 1 (String.length s - 1))))
+  else Z.of_N (n_of_dec s)
+let dec_of_z (x : z) : string =
+  if Z.ltb x Z0 then "-" ^ dec_of_n (Z.abs_N x) else dec_of_n (Z.abs_N x)
+
+(* main loop: [run] maps the TAB-separated fields of a case line to the result line *)
+let main_loop (run : string list -> string) =
   try
     while true do
       let line = input_line stdin in
-      let out = try run (split_tab line) with Stack_overflow -> "MODEL-STACK" in
+      let out = try run (split_tab line) with Stack_overflow -> "MODEL-STACK" | Not_found -> "MODEL-NOTFOUND" in
       print_string out;
       print_char '\n'
     done
